@@ -113,6 +113,19 @@ def gen_io_workload(rng, inexpressible=None):
             edges.append({"kind": "landmark", "ids": [ids[i], ids[li]], "estimate": graphs.pose_to_spec(est),
                           "information": fxm(simio.spd_information(rng, 3, cross).tolist()),
                           "offset": graphs.pose_to_spec(par3[pid]), "offset_id": pid})
+    for e in edges:
+        r = rng.random()
+        if r < 0.08:
+            # an information matrix held in single precision (e.g. loaded from a float32 sensor log)
+            m = np.array([[float(np.float32(float.fromhex(v))) for v in row] for row in e["information"]])
+            if np.all(np.isfinite(m)):
+                e["information"] = fxm(m.tolist())
+                e["info_dtype"] = "float32"
+                meta["float32_information"] = True
+        elif r < 0.12:
+            n = len(e["information"])
+            e["information"] = fxm((np.eye(n) * rng.randint(1, 9)).tolist())
+            e["info_dtype"] = "int"
     if edges and rng.random() < 0.2:
         # exact duplicates: two identical measurements are two edges (element order and count are part of the graph)
         for _ in range(rng.randint(1, 2)):
@@ -217,7 +230,7 @@ class C13(OptEngineBase):
     PROBES = [
         "w_negative_vertex", "w_negative_measurement", "cross_terms", "huge_magnitude", "tiny_magnitude", "neg_id", "big_id",
         "crlf_platform", "enospc_fired", "error_at_close_fired", "short_write_fired", "short_read_split_crlf", "inexpressible_refused",
-        "cycle_ge_3", "mutated_between_exports", "export_raised", "import_raised", "export_again_checked", "angle_pi_stored", "params_table", "chi2_nonfinite",
+        "cycle_ge_3", "mutated_between_exports", "float32_information", "legacy_print_mode", "export_raised", "import_raised", "export_again_checked", "angle_pi_stored", "params_table", "chi2_nonfinite",
     ]
 
     def generate(self, rng, tier, index):
@@ -240,7 +253,7 @@ class C13(OptEngineBase):
                     # the same object is exported, changed by its owner, and exported again
                     ops.append({"op": "export", "path": rng.choice(paths)})
                     for _ in range(rng.randint(1, 2)):
-                        ops.append({"op": "mutate", "what": rng.choice(["information", "estimate", "vertex", "param"]), "k": rng.randrange(1000),
+                        ops.append({"op": "mutate", "what": rng.choice(["information", "estimate", "vertex", "param", "raw_heading"]), "k": rng.randrange(1000),
                                     "scale": rng.choice([2.0, 0.5, 3.0, 1.0 + 2.0 ** -40])})
                 ops.append({"op": "export", "path": cur})
                 if rng.random() < 0.1:
@@ -349,6 +362,13 @@ class C13(OptEngineBase):
                         vals[1] = vals[1] * sc - 0.125
                         v.pose = graphs.make_pose(spec["t"], vals)
                         done = True
+                    elif what == "raw_heading":
+                        # the owner writes a heading in place (an in-range double the constructor's wrap need not produce)
+                        se2 = [v for v in g._vertices if graphs.type_name(v.pose) == "SE2"]
+                        if se2:
+                            v = se2[op["k"] % len(se2)]
+                            v.pose[2] = [0.7, 0.1, 1e-10, -2.5, 0.3, 3.0, 1e-17][op["k"] % 7]
+                            done = True
                     elif what == "param" and getattr(g, "_g2o_params", None):
                         # an offset parameter and the edges that use it change together (they share the pose object after an import)
                         keys = [k for k in g._g2o_params if k[0] == "PARAMS_SE3OFFSET"]
@@ -535,7 +555,7 @@ class C13(OptEngineBase):
         except Exception as e:  # noqa
             return ("unknown-objects", "imported graph holds objects the model does not know: %s" % e)
         res.n_checks += 1
-        m = simio.cmp_graph_specs(expected, got, cycles)
+        m = simio.cmp_graph_specs(expected, got, cycles, strict_angles=True)
         if m is not None:
             return m
         if g_exported is not None:
@@ -557,6 +577,10 @@ class C13(OptEngineBase):
         plat = (case.get("config") or {}).get("platform", {})
         if plat.get("linesep") == "\r\n":
             res.probe("crlf_platform")
+        if meta.get("float32_information"):
+            res.probe("float32_information")
+        if (case.get("config") or {}).get("numpy_print", {}).get("kind") == "legacy113":
+            res.probe("legacy_print_mode")
         if meta.get("magnitude") == "huge":
             res.probe("huge_magnitude")
         if meta.get("magnitude") == "tiny":
